@@ -200,7 +200,7 @@ def extra_engines(tier, seed, args):
     hs = ['line_ending_from_buf_is_first_line_terminator'] if tier == 'quick' else ['line_ending_from_buf_is_first_line_terminator']
     if not hs or getattr(args, 'only', None):
         return {'inconclusive': [], 'violations': [], 'evidence': None}
-    return kani.extra(hs, 300 if tier == 'quick' else 1500, 'get_line_ending_from_buf == terminator of the first line, every buffer of <=6 arbitrary bytes')
+    return kani.extra(hs, 600 if tier == 'quick' else 2400, 'get_line_ending_from_buf == terminator of the first line, every buffer of <=6 arbitrary bytes')
 
 
 def kani_replay(v):
